@@ -36,11 +36,37 @@ var slotNames = [4]string{"primary", "before", "after", "around"}
 
 type mdef struct {
 	variant byte
-	gen     int // how many times this (slot, specialiser tuple) had been defined when this body was installed
+	gen     int    // how many times this (slot, specialiser tuple) had been defined when this body was installed
+	src     string // the tuple as written: "u" = parameter written without a specialiser (class t)
 }
 
+// tag is the name the body traces; it carries the tuple AS WRITTEN.
 func (d mdef) tag(spec string) string {
+	if d.src != "" {
+		spec = d.src
+	}
 	return fmt.Sprintf("%c-%s-%d", d.variant, strings.ReplaceAll(spec, ",", "_"), d.gen)
+}
+
+// normSpec maps the written tuple to the specialiser tuple: an unspecialised
+// parameter ("u") is specialised on t.
+func normSpec(spec string) string {
+	parts := strings.Split(spec, ",")
+	for i, p := range parts {
+		if p == "u" {
+			parts[i] = "t"
+		}
+	}
+	return strings.Join(parts, ",")
+}
+
+func unspecialised(spec string) bool {
+	for _, p := range strings.Split(spec, ",") {
+		if p == "u" {
+			return true
+		}
+	}
+	return false
 }
 
 // entry holds the (at most four) methods with one specialiser tuple.
@@ -302,14 +328,15 @@ type version struct {
 }
 
 func newModel(cfg *config, o refOpts) *model {
-	m := &model{cfg: cfg, t: table{}, gens: map[string]int{}, opts: o, memo: map[string]expect{}}
+	m := &model{cfg: cfg, t: table{}, gens: map[string]int{}, opts: o, memo: map[string]expect{},
+		firstSrc: map[string]string{}, gone: map[string]string{}}
 	m.versions = []version{{t: table{}}}
 	return m
 }
 
 // present reports whether the slot of the tuple holds a method.
 func (m *model) present(slot int, spec string) bool {
-	e := m.t[spec]
+	e := m.t[normSpec(spec)]
 	return e != nil && e[slot] != nil
 }
 
@@ -319,16 +346,21 @@ func (m *model) apply(o op) bool {
 	switch o.kind {
 	case 'd':
 		slot := slotOf(o.variant)
-		gk := fmt.Sprintf("%d:%s", slot, o.spec)
+		key := normSpec(o.spec)
+		gk := fmt.Sprintf("%d:%s", slot, key)
 		m.gens[gk]++
-		e := m.t[o.spec]
+		e := m.t[key]
 		hadEntry := e != nil
 		replaced := hadEntry && e[slot] != nil
 		if e == nil {
 			e = &entry{}
-			m.t[o.spec] = e
+			m.t[key] = e
+			m.firstSrc[key] = o.spec
 		}
-		e[slot] = &mdef{variant: o.variant, gen: m.gens[gk]}
+		if replaced {
+			m.gone[e[slot].tag(key)] = "replaced"
+		}
+		e[slot] = &mdef{variant: o.variant, gen: m.gens[gk], src: o.spec}
 		m.versions = append(m.versions, version{t: m.t.clone(), what: "defmethod"})
 		switch {
 		case m.opts.staleOnNewKey && !hadEntry:
@@ -340,13 +372,19 @@ func (m *model) apply(o op) bool {
 		m.callsSinceMutation = 0
 	case 'r':
 		slot := slotOf(o.variant)
-		e := m.t[o.spec]
+		key := normSpec(o.spec)
+		e := m.t[key]
 		if e == nil || e[slot] == nil {
 			return false
 		}
+		if m.opts.removeKeepsUnspecialised && unspecialised(m.firstSrc[key]) {
+			return true
+		}
+		m.gone[e[slot].tag(key)] = "removed"
 		e[slot] = nil
 		if *e == (entry{}) {
-			delete(m.t, o.spec)
+			delete(m.t, key)
+			delete(m.firstSrc, key)
 		}
 		m.versions = append(m.versions, version{t: m.t.clone(), what: "remove-method"})
 		if !m.opts.staleOnRemove {
